@@ -326,6 +326,16 @@ func evalForm(c *cryptgen.Case, st *formStats) *harness.Fail {
 	if f := checkMeta(c, b, p); f != nil {
 		return f
 	}
+	// mdat boxes keep their size and header form
+	cm, em := kids(&boxwalk.Box{Children: ct}, "mdat"), kids(&boxwalk.Box{Children: et}, "mdat")
+	if len(cm) != len(em) {
+		return harness.Failf("C07|mdat|count differs", "%d vs %d", len(em), len(cm))
+	}
+	for i := range cm {
+		if cm[i].Size != em[i].Size || cm[i].HdrSize != em[i].HdrSize {
+			return harness.Failf("C07|mdat|size or header form differs", "mdat %d: size %d hdr %d, input size %d hdr %d", i, em[i].Size, em[i].HdrSize, cm[i].Size, cm[i].HdrSize)
+		}
+	}
 	moofs := kids(&boxwalk.Box{Children: et}, "moof")
 	if len(moofs) != len(c.Frags) {
 		return harness.Failf("C07|fragments|count differs", "")
